@@ -24,6 +24,7 @@ RULE = ("random histories of 5-60 read-only calls (with arguments, repetition, p
         "the same object")
 RULE += ("; added after the mutation rounds: targeted two- and three-call sequences (kappa / delta-max / permutant with bool and non-bool flags, pH 0 then region, Omega / Omega string, user alphabets, phospho queries); live objects replaced by their shuffled children; plotting and write_compfile as perturbers; sequences whose raw ratio lies in (1,1.1); the first cases of every shard are judged again at its end")
 RULE += ("; round 6: several threads asking read-only queries, each of objects of its own; repeated isoelectric-point calls on chains where almost only arginine titrates")
+RULE += ("; round 7: overlapping groups in swapped order; sliding-window getters with one window in different orders")
 EXHAUSTIVE = {"quick": False, "thorough": False}
 ASSUMPTIONS = [
     "the reference is a fork of a process that has imported localcider and made no call (same interpreter, hash seed)",
@@ -38,7 +39,7 @@ NHIST = {"quick": 280, "thorough": 3000}
 NSEQ = {"quick": 90, "thorough": 600}
 MAX_SHARDS = 16
 
-GROUPS = [("EDKR",), ("ED", "KR"), ("PEDKR",), ("DE", "KPR"), ("AKPG",), ("AKPG", "REFY"), ("ST", "Y"), ("ed", "kr"),
+GROUPS = [("EDS", "SKR"), ("SKR", "EDS"), ("EDKR",), ("ED", "KR"), ("PEDKR",), ("DE", "KPR"), ("AKPG",), ("AKPG", "REFY"), ("ST", "Y"), ("ed", "kr"),
           ("RKED",), ("KR", "ED"), ("QNSTGHC",), ("FWY", "ILVM")]
 PHS = [0, 0.0, 7, 7.4, 14, 14.0, 3.3, 10.5]
 UA1 = {a: "LKE"[i % 3] for i, a in enumerate(M.AA)}
@@ -131,6 +132,10 @@ TARGETED = [
     [("get_amino_acid_fractions", ()), ("get_amino_acid_fractions", ())],
     [("get_isoelectric_point", ()), ("get_isoelectric_point", ()), ("get_isoelectric_point", ())],
     [("get_SCD", ()), ("get_SCD", ())],
+    [("get_kappa_X", ("EDS", "SKR")), ("get_kappa_X", ("SKR", "EDS")), ("get_kappa_X", ("EDS", "SKR"))],
+    [("get_kappa_X", ("KR", "ED")), ("get_kappa_X", ("ED", "KR")), ("get_kappa", ())],
+    [("get_linear_sigma(w)", (5,)), ("get_linear_FCR(w)", (5,)), ("get_linear_NCPR(w)", (5,))],
+    [("get_linear_hydropathy(w)", (3,)), ("get_linear_sigma(w)", (3,)), ("get_linear_FCR(w)", (3,)), ("get_linear_sigma(w)", (3,))],
     [("get_isoelectric_point", ()), ("get_FCR(pH)", (14,)), ("get_isoelectric_point", ())],
 ]
 PERTURBERS = ["bad_window", "bad_group", "bad_pH", "bad_type", "bad_alphabet", "shuffle", "bad_ppii", "plot", "compfile",
